@@ -19,7 +19,7 @@ ASSUMPTIONS = [
     "empty directories are not tracked (as the statement says) and are not expected back",
 ]
 MONITORS = "independent walk of the fresh location; reloaded Tree listing vs independent listing; reported nfiles/size vs data"
-REQUIRED_COUNTERS = ["shallow_transfers_before_the_full_one", "index_persisted_and_reopened_before_checkout", "staged_through_non_normalised_path", "staged_through_trailing_separator", "debris_objects_planted", "interleaved_stagings", "second_generation_roundtrips", "dirs_with_several_large_files", "restaged_after_checkout", "roundtrips", "files_compared", "route/object", "route/index-explicit", "route/index-lazy", "route/index-lazy-root", "two_cache_roundtrips", "single_file_cases",
+REQUIRED_COUNTERS = ["stores_configured_to_verify", "transfers_with_a_value_returning_status_hook", "shallow_transfers_before_the_full_one", "index_persisted_and_reopened_before_checkout", "staged_through_non_normalised_path", "staged_through_trailing_separator", "debris_objects_planted", "interleaved_stagings", "second_generation_roundtrips", "dirs_with_several_large_files", "restaged_after_checkout", "roundtrips", "files_compared", "route/object", "route/index-explicit", "route/index-lazy", "route/index-lazy-root", "two_cache_roundtrips", "single_file_cases",
                      "store/local", "store/base", "link/hardlink", "link/symlink", "link/copy", "link/default", "with_state", "listing_reloads"]
 
 
@@ -65,6 +65,10 @@ def run_shard(ctx):
             os.makedirs(os.path.dirname(out))
             state = env.mk_state(d, os.path.join(d, "tmp")) if use_state else None
             cfg = {"type": [link]} if link != "default" else {}
+            if rng.random() < 0.15:
+                # a store configured to verify whatever it is given
+                cfg["verify"] = True
+                res.count("stores_configured_to_verify")
             odb = env.odb_of_class(cls, os.path.join(d, "cache"), state=state, **cfg)
             if single:
                 (k0,) = files
